@@ -73,7 +73,8 @@ def run_rules(rules, ids):
             out = {}
             for r in rules:
                 try:
-                    v = ctx.rule_result(r).violations()
+                    from sa.selftest import KNOWN_KEYS
+                    v = [o for o in ctx.rule_result(r).violations() if (o.rule, o.site, o.construct) not in KNOWN_KEYS()]
                     if v:
                         out[r] = [o.site.split("::")[-1] + " :: " + o.construct[:70] for o in v[:3]]
                 except AnalysisError as e:
